@@ -17,7 +17,61 @@ import (
 
 // zipWalker: the function with parameters (raw, marker []byte, bool) called by
 // the OOXML / JAR detectors.
-func zipWalker(c *core.Ctx, tm *tree.Model) (*ssa.Function, *tree.Node) {
+// zipWalk: the entry-name walker. api is what the detectors call with one
+// marker; walk is the function holding the walk: api itself, or the
+// several-markers form api forwards to with the one-element list of its marker.
+type zipWalk struct {
+	api, walk *ssa.Function
+	anyPrefix *ssa.Function // several-markers form: the "some marker is a prefix" predicate
+	anyOK     bool          // ... has the verified shape
+	flagOK    bool          // ... and the forwarder hands its flag on unchanged
+}
+
+// markerTest: the call tests the entry name at the cursor against the walker's marker(s).
+func (w *zipWalk) markerTest(cc *ssa.CallCommon) bool {
+	if len(cc.Args) != 2 || cc.Args[1] != ssa.Value(w.walk.Params[1]) {
+		return false
+	}
+	if w.anyPrefix != nil {
+		return cc.StaticCallee() == w.anyPrefix
+	}
+	return core.CalleeIs(cc, "bytes", "HasPrefix")
+}
+
+// anyPrefixShape: p(b, sigs) ranges over all of sigs, answers true as soon as
+// bytes.HasPrefix(b, sig) holds and false after the range.
+func anyPrefixShape(p *ssa.Function) bool {
+	if p == nil || p.Blocks == nil || len(p.Params) != 2 || !core.IsByteSlice(p.Params[0].Type()) {
+		return false
+	}
+	rs := fde.FindRangeOver(p, p.Params[1])
+	if len(rs) != 1 {
+		return false
+	}
+	r := rs[0]
+	iff := core.IfOf(r.Body)
+	if iff == nil {
+		return false
+	}
+	cond, pos := core.StripNot(iff.Cond, true)
+	call, ok := cond.(*ssa.Call)
+	if !ok || !core.CalleeIs(&call.Call, "bytes", "HasPrefix") || call.Call.Args[0] != ssa.Value(p.Params[0]) || call.Call.Args[1] != ssa.Value(r.Load) {
+		return false
+	}
+	hit, miss := r.Body.Succs[0], r.Body.Succs[1]
+	if !pos {
+		hit, miss = miss, hit
+	}
+	rh, rd := retOf(hit), retOf(r.Done)
+	if rh == nil || rd == nil || miss != r.Header || len(core.Returns(p)) != 2 {
+		return false
+	}
+	vh, okh := core.ConstBool(rh.Results[0])
+	vd, okd := core.ConstBool(rd.Results[0])
+	return okh && okd && vh && !vd
+}
+
+func zipWalker(c *core.Ctx, tm *tree.Model) (*zipWalk, *tree.Node) {
 	zs := tm.Find("application/zip")
 	if len(zs) != 1 {
 		core.Bail("application/zip node not found")
@@ -41,14 +95,80 @@ func zipWalker(c *core.Ctx, tm *tree.Model) (*ssa.Function, *tree.Node) {
 	if w == nil {
 		core.Bail("zip entry-name walker not found")
 	}
-	return w, z
+	zw := &zipWalk{api: w, walk: w}
+	// forwarder: return walk(raw, [][]byte{marker}, flag)
+	if rs := core.Returns(w); len(w.Blocks) == 1 && len(rs) == 1 {
+		if call, ok := rs[0].Results[0].(*ssa.Call); ok {
+			h := call.Call.StaticCallee()
+			if h != nil && core.InMod(h) && h.Blocks != nil && len(h.Params) == 3 && len(call.Call.Args) == 3 &&
+				call.Call.Args[0] == ssa.Value(w.Params[0]) && oneElementList(call.Call.Args[1], w.Params[1]) {
+				nCalls := 0
+				for range core.Calls(w) {
+					nCalls++
+				}
+				if nCalls == 1 {
+					zw.walk = h
+					zw.flagOK = call.Call.Args[2] == ssa.Value(w.Params[2])
+					for _, ci := range core.Calls(h) {
+						if p := ci.Common().StaticCallee(); p != nil && core.InMod(p) && p.Blocks != nil && len(ci.Common().Args) == 2 && ci.Common().Args[1] == ssa.Value(h.Params[1]) {
+							if zw.anyPrefix != nil && zw.anyPrefix != p {
+								core.Bail("zip walker %s hands its markers to two different helpers", h.Name())
+							}
+							zw.anyPrefix, zw.anyOK = p, anyPrefixShape(p)
+						}
+					}
+					if zw.anyPrefix == nil {
+						core.Bail("zip walker %s takes several markers but no predicate over them was found", h.Name())
+					}
+				}
+			}
+		}
+	}
+	return zw, z
+}
+
+// oneElementList: v is the list literal {elem}: a full slice of a fresh one-element array whose only store is elem.
+func oneElementList(v ssa.Value, elem ssa.Value) bool {
+	sl, ok := v.(*ssa.Slice)
+	if !ok || sl.Low != nil || sl.High != nil {
+		return false
+	}
+	arr, ok := sl.X.(*ssa.Alloc)
+	if !ok {
+		return false
+	}
+	at, ok := arr.Type().Underlying().(*types.Pointer).Elem().Underlying().(*types.Array)
+	if !ok || at.Len() != 1 {
+		return false
+	}
+	stores := 0
+	for _, ref := range *arr.Referrers() {
+		switch x := ref.(type) {
+		case *ssa.IndexAddr:
+			if !core.IsConstInt(x.Index, 0) {
+				return false
+			}
+			for _, r2 := range *x.Referrers() {
+				st, isSt := r2.(*ssa.Store)
+				if !isSt || st.Val != elem {
+					return false
+				}
+				stores++
+			}
+		case *ssa.Slice, *ssa.DebugRef:
+		default:
+			return false
+		}
+	}
+	return stores == 1
 }
 
 var ruleZipMarkers = &core.Rule{ID: "R19.1", Min: 8,
 	Doc: "zip markers: docx/xlsx/pptx look for word/, xl/, ppt/ with the OOXML first-entry list on, jar for META-INF/MANIFEST.MF with it off, on the unmodified header; the OOXML first-entry list contains [Content_Types].xml; all these nodes are children of application/zip and apk precedes jar",
 	Run: func(c *core.Ctx, s *core.Sink) {
 		tm := tree.Get(c)
-		w, z := zipWalker(c, tm)
+		zw, z := zipWalker(c, tm)
+		w := zw.walk
 		type spec struct {
 			mime   string
 			marker string
@@ -72,10 +192,17 @@ var ruleZipMarkers = &core.Rule{ID: "R19.1", Min: 8,
 			s.Check(len(n.Parents) == 1 && n.Parents[0] == z, "parent of "+sp.mime, c.Pos(n.Pos), "child of application/zip", "the node is not a child of application/zip: the verdict would not have application/zip as its parent")
 			idx[sp.mime] = childIndex(z, n)
 			var calls []ssa.CallInstruction
+			direct := false
 			for _, ci := range core.Calls(n.DetFn) {
-				if ci.Common().StaticCallee() == w {
+				if ci.Common().StaticCallee() == zw.api {
 					calls = append(calls, ci)
+				} else if ci.Common().StaticCallee() == zw.walk {
+					direct = true
 				}
+			}
+			if direct {
+				s.Und(key, c.Pos(n.DetFn.Pos()), "the detector calls the several-markers walker directly: its marker list is not folded")
+				continue
 			}
 			if len(calls) != 1 {
 				s.Bad(key, c.Pos(n.DetFn.Pos()), fmt.Sprintf("%d calls of the entry walker", len(calls)))
@@ -117,7 +244,7 @@ var ruleZipMarkers = &core.Rule{ID: "R19.1", Min: 8,
 			n := 0
 			if apk[0].DetFn != nil {
 				for _, ci := range core.Calls(apk[0].DetFn) {
-					if ci.Common().StaticCallee() == w {
+					if ci.Common().StaticCallee() == zw.api || ci.Common().StaticCallee() == zw.walk {
 						n++
 						mso, ok := core.ConstBool(ci.Common().Args[2])
 						s.Check(ok && !mso && ci.Common().Args[0] == ssa.Value(apk[0].DetFn.Params[0]), fmt.Sprintf("apk marker call #%d", n), c.Pos(ci.Pos()), "unmodified header, first-entry list off", "the APK detector walks something other than the unmodified header or applies the OOXML first-entry list")
@@ -321,8 +448,13 @@ var ruleZipWalk = &core.Rule{ID: "R19.5", Min: 5,
 	Doc: "entry walker layout: the first name is read at offset 30, the compressed size at offset 18, the next header is searched after size+49 bytes, then a loop with constant trip count 4 (counted or range-over-int form) follows headers: the marker is looked for in at most six entries; every failure of the bounded cursor returns false",
 	Run: func(c *core.Ctx, s *core.Sink) {
 		tm := tree.Get(c)
-		w, _ := zipWalker(c, tm)
-		raw, sig := w.Params[0], w.Params[1]
+		zw, _ := zipWalker(c, tm)
+		w := zw.walk
+		raw := w.Params[0]
+		if zw.anyPrefix != nil {
+			s.Check(zw.flagOK, zw.api.Name()+": forwards to the several-markers walker", c.Pos(zw.api.Pos()), "return "+w.Name()+"(raw, {marker}, flag)", "the single-marker entry does not hand its first-entry flag on to the walker unchanged")
+			s.Check(zw.anyOK, zw.anyPrefix.Name()+": some marker is a prefix of the entry name", c.Pos(zw.anyPrefix.Pos()), "range over all markers, bytes.HasPrefix(name, marker) => true, else false", "the predicate over the marker list is not `some marker is a prefix of the entry name`")
+		}
 		// cursor advance calls
 		var adv []*ssa.Call
 		for _, ci := range core.Calls(w) {
@@ -466,7 +598,7 @@ var ruleZipWalk = &core.Rule{ID: "R19.5", Min: 5,
 		// marker tests: HasPrefix(cursor, sig) x3 (first, second, loop), each true => return true
 		n := 0
 		for _, ci := range core.Calls(w) {
-			if core.CalleeIs(ci.Common(), "bytes", "HasPrefix") && ci.Common().Args[1] == ssa.Value(sig) {
+			if zw.markerTest(ci.Common()) {
 				n++
 				ok := false
 				for _, ref := range *ci.Value().Referrers() {
@@ -540,7 +672,7 @@ var ruleZipWalk = &core.Rule{ID: "R19.5", Min: 5,
 				under := false
 				for _, de := range core.DominatingConds(r.Block()) {
 					cond, val := core.StripNot(de.Cond, de.Val)
-					if call, ok := cond.(*ssa.Call); ok && val && core.CalleeIs(&call.Call, "bytes", "HasPrefix") && call.Call.Args[1] == ssa.Value(sig) {
+					if call, ok := cond.(*ssa.Call); ok && val && zw.markerTest(&call.Call) {
 						under = true
 					}
 				}
